@@ -47,12 +47,15 @@ type kase struct {
 	Late bool `json:"late_rotation,omitempty"`
 	// Pooled: the server's storage wrapper is a pool whose encrypting key is
 	// rotated between the authorization and the fetch (needs Wrapper)
-	Pooled bool  `json:"pooled_wrapper,omitempty"`
-	Seed   int64 `json:"seed"`
+	Pooled bool `json:"pooled_wrapper,omitempty"`
+	// ReplaceRoots: between the first fetch and the honest retry (wrapper flows)
+	// the operator replaces the server's roots; the retry is answered under the new ones
+	ReplaceRoots bool  `json:"roots_replaced_before_retry,omitempty"`
+	Seed         int64 `json:"seed"`
 }
 
 func (k kase) String() string {
-	return fmt.Sprintf("flow=%s backend=%s storage-wrapper=%v pooled=%v state=%v retry=%v aged-roots=%v late-rotation=%v", k.Flow, k.Backend, k.Wrapper, k.Pooled, k.State, k.Retry, k.Aged, k.Late)
+	return fmt.Sprintf("flow=%s backend=%s storage-wrapper=%v pooled=%v state=%v retry=%v aged-roots=%v late-rotation=%v roots-replaced-before-retry=%v", k.Flow, k.Backend, k.Wrapper, k.Pooled, k.State, k.Retry, k.Aged, k.Late, k.ReplaceRoots)
 }
 
 var dirSeq int
@@ -269,6 +272,11 @@ func (w *world) one(k kase, r *engine.Report) (string, string) {
 		return fail("fetch", "the honest fetch after authorization did not return credentials: %v", err)
 	}
 	if k.Retry {
+		if k.ReplaceRoots {
+			if roots, err = rotation.RotateRootCertificates(harness.Ctx, srv, append(append([]nodeenrollment.Option{}, sopt...), nodeenrollment.WithReinitializeRoots(true))...); err != nil {
+				return fail("setup", "root replacement failed: %v", err)
+			}
+		}
 		resp, err = registration.FetchNodeCredentials(harness.Ctx, srv, req, fetchOpt...)
 		if err != nil || !harness.HasCreds(resp) {
 			return fail("fetch-retry", "an honest retry of the same fetch did not return credentials: %v", err)
@@ -489,6 +497,9 @@ func cases() []kase {
 						if w {
 							out = append(out, kase{Flow: f, Backend: b, Wrapper: w, Pooled: true, State: s, Retry: re})
 						}
+						if re && (f == "wrapper" || f == "rewrapped") && b != "storeonce" {
+							out = append(out, kase{Flow: f, Backend: b, Wrapper: w, State: s, Retry: re, ReplaceRoots: true})
+						}
 					}
 				}
 			}
@@ -533,7 +544,7 @@ func init() {
 	engine.Register(&engine.CheckDef{
 		ID:    "C04",
 		Level: "exploration",
-		Rule: "flow {operator-authorized, activation token, wrapper, re-wrapped by an upstream node} x storage back end {inmem, file, store-once} x storage wrapper {off,on} x application state / parameters {none, some} x honest retry {no, yes; not for tokens} = 84 configurations, each enrolled right after root creation, three virtual days later and fifteen virtual days later (the current root expired, the next valid, before the next rotation call), plus the 42 wrapper configurations with a pooled storage wrapper whose encrypting key is rotated between authorization and fetch (294 runs), through the real node-side and server-side API; in each, 6 node-side substitutions (other decrypting key, another node's ciphertext / server key / whole response, different nonce, a foreign response for the node's key echoing another nonce - also after the enrollment completed), a fetch re-signed over another encryption key and a final real Dial to a listener over the same store; every issued certificate is parsed and checked; " +
+		Rule: "flow {operator-authorized, activation token, wrapper, re-wrapped by an upstream node} x storage back end {inmem, file, store-once} x storage wrapper {off,on} x application state / parameters {none, some} x honest retry {no, yes; not for tokens} = 84 configurations, each enrolled right after root creation, three virtual days later and fifteen virtual days later (the current root expired, the next valid, before the next rotation call), plus the 42 wrapper configurations with a pooled storage wrapper whose encrypting key is rotated between authorization and fetch and the wrapper-flow retries again with the server's roots replaced between fetch and retry (310 runs), through the real node-side and server-side API; in each, 6 node-side substitutions (other decrypting key, another node's ciphertext / server key / whole response, different nonce, a foreign response for the node's key echoing another nonce - also after the enrollment completed), a fetch re-signed over another encryption key and a final real Dial to a listener over the same store; every issued certificate is parsed and checked; " +
 			"distinct_nontrivial counts configurations (distinct by construction) that ran to the final dial",
 		Assumptions: []string{"keys of an enrollment are freshly random (the library's own generators); the check is about bindings, not about key values"},
 		Shards:      func(c *engine.Ctx) int { return 12 },
